@@ -6,6 +6,7 @@
 package vstat
 
 import (
+	"strconv"
 	"encoding/json"
 	"flag"
 	"fmt"
@@ -322,6 +323,19 @@ func (r *Recorder) RunRapid(t *testing.T, prop func(*rapid.T)) {
 }
 
 // Enabled reports whether oracles of property id are enabled in this run.
+// SetGlogV sets glog's verbosity (-v) for the code under test and returns the function that restores the
+// previous level. glog honours the change at once; with -log_dir set (the driver does) the output goes to files.
+// Code inside `if log.V(n) { ... }` blocks is otherwise never executed by an engine.
+func SetGlogV(n int) (restore func()) {
+	f := flag.Lookup("v")
+	if f == nil {
+		return func() {}
+	}
+	old := f.Value.String()
+	f.Value.Set(strconv.Itoa(n))
+	return func() { f.Value.Set(old) }
+}
+
 func Enabled(id string) bool { return *Prop == "" || *Prop == id }
 
 // ReplayFile is the on-disk form of a replay.
